@@ -276,12 +276,12 @@ theorem dqBubbleUpMax (s : Store P) (pos mp : Nat) (prio : P) (fuel : Nat) (h : 
 /-! ## `DoublePriorityQueue::bubble_up` -/
 
 theorem call_dqBubbleUpMin (s : Store P) (pos mp : Nat) (prio : P) (n : Nat) (h : n ≥ pos + 2) :
-    callWith (exec prog n) prog .dqBubbleUpMin s [pos, mp] [prio]
+    callWith (exec prog n) prog .dqBubbleUpMin s [pos, mp] [prio] []
       = (fun r => (r.1, Val.nat r.2)) <$> DQ.bubbleUpMinLoop (pos + 1) s pos prio :=
   dqBubbleUpMin s pos mp prio n h
 
 theorem call_dqBubbleUpMax (s : Store P) (pos mp : Nat) (prio : P) (n : Nat) (h : n ≥ pos + 2) :
-    callWith (exec prog n) prog .dqBubbleUpMax s [pos, mp] [prio]
+    callWith (exec prog n) prog .dqBubbleUpMax s [pos, mp] [prio] []
       = (fun r => (r.1, Val.nat r.2)) <$> DQ.bubbleUpMaxLoop (pos + 1) s pos prio :=
   dqBubbleUpMax s pos mp prio n h
 
@@ -625,11 +625,11 @@ theorem dqHeapifyMax (s : Store P) (i : Nat) (fuel : Nat) (hs : 1 ≤ s.size) (h
 /-! ## `DoublePriorityQueue::heapify` -/
 
 theorem call_dqHeapifyMin (s : Store P) (i n : Nat) (hs : 1 ≤ s.size) (h : n ≥ s.size + 2) :
-    callWith (exec prog n) prog .dqHeapifyMin s [i] [] = (fun s' => (s', Val.unit)) <$> DQ.heapifyMinLoop s.size s i :=
+    callWith (exec prog n) prog .dqHeapifyMin s [i] [] [] = (fun s' => (s', Val.unit)) <$> DQ.heapifyMinLoop s.size s i :=
   dqHeapifyMin s i n hs h
 
 theorem call_dqHeapifyMax (s : Store P) (i n : Nat) (hs : 1 ≤ s.size) (h : n ≥ s.size + 2) :
-    callWith (exec prog n) prog .dqHeapifyMax s [i] [] = (fun s' => (s', Val.unit)) <$> DQ.heapifyMaxLoop s.size s i :=
+    callWith (exec prog n) prog .dqHeapifyMax s [i] [] [] = (fun s' => (s', Val.unit)) <$> DQ.heapifyMaxLoop s.size s i :=
   dqHeapifyMax s i n hs h
 
 /-- `DoublePriorityQueue::heapify` = `DQ.heapify` -/
@@ -729,15 +729,15 @@ theorem dq_bubbleUp_post_size (s : Store P) (pos mp : Nat) :
   · exact Post.bind (Post.triv _) fun _ _ => Post.bind (Post.triv _) fun _ _ => Post.bind (hmin _ _ rfl) tail
 
 theorem call_dqHeapify (s : Store P) (i n : Nat) (h : n ≥ s.size + 3) :
-    callWith (exec prog n) prog .dqHeapify s [i] [] = (fun s' => (s', Val.unit)) <$> DQ.heapify s i :=
+    callWith (exec prog n) prog .dqHeapify s [i] [] [] = (fun s' => (s', Val.unit)) <$> DQ.heapify s i :=
   dqHeapify s i n h
 
 theorem call_dqBubbleUp (s : Store P) (pos mp n : Nat) (h : n ≥ pos + 3) :
-    callWith (exec prog n) prog .dqBubbleUp s [pos, mp] [] = (fun r => (r.1, Val.nat r.2)) <$> DQ.bubbleUp s pos mp :=
+    callWith (exec prog n) prog .dqBubbleUp s [pos, mp] [] [] = (fun r => (r.1, Val.nat r.2)) <$> DQ.bubbleUp s pos mp :=
   dqBubbleUp s pos mp n h
 
 /-- `DoublePriorityQueue::up_heapify` = `DQ.upHeapify` -/
-theorem dqUpHeapify (s : Store P) (i : Nat) (fuel : Nat) (h : fuel ≥ s.size + i + 4) :
+theorem dqUpHeapify (s : Store P) (i : Nat) (fuel : Nat) (h : fuel ≥ s.size + min i s.heap.size + 4) :
     Src.run SrcGen.prog fuel .dqUpHeapify s [i] = (fun s' => (s', Val.unit)) <$> DQ.upHeapify s i := by
   obtain ⟨k, rfl⟩ : ∃ k, fuel = k + 1 := ⟨fuel - 1, by omega⟩
   src_enter [prog, SrcGen.dqUpHeapify]
@@ -746,6 +746,7 @@ theorem dqUpHeapify (s : Store P) (i : Nat) (fuel : Nat) (h : fuel ≥ s.size + 
   cases hget : s.heap[i]? with
   | none => src_eval
   | some tmp =>
+    have hi : i < s.heap.size := getElem?_some_lt hget
     src_eval
     rw [call_dqBubbleUp _ _ _ _ (by omega)]
     src_eval
